@@ -1,0 +1,139 @@
+//go:build verif
+
+package tree
+
+// Read-only accessors used by the /verif C04 check (CSS defaulting, computed
+// values).  Nothing here is compiled without the `verif` build tag.
+
+import (
+	"reflect"
+	"runtime"
+	"strings"
+
+	pr "github.com/benoitkugler/webrender/css/properties"
+	"github.com/benoitkugler/webrender/css/validation"
+	"github.com/benoitkugler/webrender/utils"
+)
+
+// VerifC04Styles exposes the computed style objects of every element,
+// pseudo-element and page context built so far (the objects themselves, not
+// copies: calling Get on them is the observation the property is about).
+func VerifC04Styles(sf *StyleFor) map[utils.ElementKey]pr.ElementStyle {
+	return sf.computedStyles
+}
+
+// VerifC04Cascaded returns the cascaded declarations a ComputedStyle was built
+// from; ok is false for an AnonymousStyle.
+func VerifC04Cascaded(s pr.ElementStyle) (out map[pr.PropKey]pr.DeclaredValue, ok bool) {
+	c, isComputed := s.(*ComputedStyle)
+	if !isComputed {
+		return nil, false
+	}
+	out = make(map[pr.PropKey]pr.DeclaredValue, len(c.cascaded))
+	for k, v := range c.cascaded {
+		out[k] = v.value
+	}
+	return out, true
+}
+
+// VerifC04Cached looks a property up in the style's cache without computing it.
+func VerifC04Cached(s pr.ElementStyle, key pr.PropKey) (pr.CssProperty, bool) {
+	switch c := s.(type) {
+	case *ComputedStyle:
+		return c.propsCache.get(key)
+	case *AnonymousStyle:
+		return c.propsCache.get(key)
+	}
+	return nil, false
+}
+
+// VerifC04RootFontSize returns the root font size a ComputedStyle resolves
+// `rem` against.
+func VerifC04RootFontSize(s pr.ElementStyle) (pr.Float, bool) {
+	if c, ok := s.(*ComputedStyle); ok {
+		return c.rootStyle.fontSize.Value, true
+	}
+	return 0, false
+}
+
+// VerifC04ComputerName returns the name of the function registered in
+// computerFunctions for the property ("" when there is none).
+func VerifC04ComputerName(p pr.KnownProp) string {
+	fn := computerFunctions[p]
+	if fn == nil {
+		return ""
+	}
+	name := runtime.FuncForPC(reflect.ValueOf(fn).Pointer()).Name()
+	if i := strings.LastIndexByte(name, '.'); i >= 0 {
+		name = name[i+1:]
+	}
+	return name
+}
+
+// VerifC04BorderWidthKeywords returns a copy of the border-width keyword table.
+func VerifC04BorderWidthKeywords() map[string]pr.Float {
+	out := make(map[string]pr.Float, len(borderWidthKeywords))
+	for k, v := range borderWidthKeywords {
+		out[k] = v
+	}
+	return out
+}
+
+// VerifC04FontWeightRelative returns copies of the bolder / lighter tables.
+func VerifC04FontWeightRelative() (bolder, lighter map[int]int) {
+	bolder, lighter = map[int]int{}, map[int]int{}
+	for k, v := range fontWeightRelative.bolder {
+		bolder[k] = v
+	}
+	for k, v := range fontWeightRelative.lighter {
+		lighter[k] = v
+	}
+	return bolder, lighter
+}
+
+// VerifC04NewAnonymous builds the style of an anonymous box the way the box
+// tree does (boxes.*AnonymousFrom).
+func VerifC04NewAnonymous(parent pr.ElementStyle) pr.ElementStyle {
+	return ComputedFromCascaded(nil, nil, parent, nil)
+}
+
+// VerifC04ResolvePending reports what var() substitution and validation make of
+// the cascaded value of `key` when it is pending (style.go cascadeValue, the
+// block guarded by `value.(pr.RawTokens)`): the validated value, or failed=true
+// when the declaration is invalid at computed-value time.  pending is false
+// when the cascaded value is not a pending one.
+func VerifC04ResolvePending(s pr.ElementStyle, key pr.PropKey) (value pr.DeclaredValue, failed, pending bool) {
+	c, ok := s.(*ComputedStyle)
+	if !ok {
+		return nil, false, false
+	}
+	casc, in := c.cascaded[key]
+	if !in {
+		return nil, false, false
+	}
+	rawTokens, isPending := casc.value.(pr.RawTokens)
+	if !isPending {
+		return nil, false, false
+	}
+	var solvedTokens []Token
+	for _, token := range rawTokens {
+		tokens, cyclic := resolveVar(c.variables, token, utils.NewSet())
+		if cyclic {
+			return nil, true, true
+		}
+		if tokens == nil {
+			solvedTokens = append(solvedTokens, token)
+		} else {
+			solvedTokens = append(solvedTokens, tokens...)
+		}
+	}
+	var err error
+	if len(solvedTokens) == 0 {
+		return nil, true, true
+	} else if casc.shortand != 0 {
+		value, err = validation.ExpandValidatePending(key.KnownProp, casc.shortand, solvedTokens)
+	} else {
+		value, err = validation.Validate(key, solvedTokens)
+	}
+	return value, err != nil, true
+}
